@@ -197,7 +197,7 @@ func merge[EntityT entity.Interface](def Definition, wrapper func(e *Entity) Ent
 	// an empty operationPack.
 	// First step is to collect those clocks.
 
-	localEntity, err := read[EntityT](def, wrapper, repo, resolvers, localRef)
+	_, err = read[EntityT](def, wrapper, repo, resolvers, localRef)
 	if err != nil {
 		return entity.NewMergeError(err, id)
 	}
@@ -228,7 +228,13 @@ func merge[EntityT entity.Interface](def Definition, wrapper func(e *Entity) Ent
 	// Note: we don't need to update localEntity state (lastCommit, operations...) as we
 	// discard it entirely anyway.
 
-	return entity.NewMergeUpdatedStatus(id, localEntity)
+	// localEntity only holds the local branch: hand back the merged result instead
+	mergedEntity, err := read[EntityT](def, wrapper, repo, resolvers, localRef)
+	if err != nil {
+		return entity.NewMergeError(err, id)
+	}
+
+	return entity.NewMergeUpdatedStatus(id, mergedEntity)
 }
 
 // Remove delete an Entity.
